@@ -7,6 +7,8 @@ CONSTANTS
   LensKind = "mixed"
   WithReload = FALSE
   ReloadBumpsVersion = TRUE
+  WithHideKeep = FALSE
+  Follow = FALSE
   WithScroll = TRUE
   DelayedSetsVersion <- TreeDelayedSetsVersion
 SPECIFICATION Spec
